@@ -139,7 +139,7 @@ let check which line =
 (* ---- C03 end to end: "... mode=b|t n=<n|-> s=<s> threads=a,b,c" ---- *)
 let e2e_cfg t =
   { c_test = (get t "mode" "b" = "t"); c_count = opt_n (get t "n" "-"); c_size = opt_n (get t "s" "-");
-    c_min = N0; c_max = u128_max; c_skip = false; c_freq = n_of_small 1; c_prec = n_of_small 1;
+    c_min = N0; c_max = (if get t "mx" "-" = "0" then N0 else u128_max); c_skip = false; c_freq = n_of_small 1; c_prec = n_of_small 1;
     c_oh = { oh_loop = N0; oh_alloc = N0; oh_dealloc = N0; oh_realloc = N0 }; c_input_counts = qconst false }
 
 let e2e_model line =
@@ -180,7 +180,8 @@ let e2e_check line =
         | true, Some sa, Some it ->
           let calls = (try Some (list_n (get r "calls" "")) with _ -> None) in
           (match calls with
-           | Some cl when c03_e2e_sb cfg.c_count s (n_of_string ts) cfg.c_test sa it cl -> None
+           (* max_time = 0 is a zero case like n = 0 (C03_zero_runs_nothing): nothing may be called *)
+          | Some cl when c03_e2e_sb (if cfg.c_max = N0 then Some N0 else cfg.c_count) s (n_of_string ts) cfg.c_test sa it cl -> None
            | _ -> Some ("t=" ^ ts))
         | _ -> Some ("t=" ^ ts ^ ":unreadable")) (List.combine want rows) in
     verdict (bad = []) ("C03:reported-samples/iters/calls-wrong-at-" ^ String.concat "," bad)
